@@ -44,7 +44,7 @@ class Stream(object):
         return b
 
 
-FUNCS = ['spyne.server.wsgi.WsgiApplication.__wsgi_input_to_iterable']
+FUNCS = ['spyne.server.wsgi.WsgiApplication.__wsgi_input_to_iterable', 'spyne.server.http.HttpBase.__init__']
 
 
 _RP = lambda ks: [(k, cl) for k in ks for cl in ('absent', 'empty', 'number')]
@@ -59,10 +59,12 @@ def body_reader(sx, p):
     """at most max_content_length bytes are ever requested/read; a declared length above the limit is
     refused before the first read; a declared length within the limit is never refused"""
     k, clkind = p
-    w = WsgiApplication(APP)
     maxlen = sx.int('max_content_length', 0, 99999)
-    w.max_content_length = maxlen
-    w.block_length = sx.int('block_length', 1, 99999)
+    blocklen = sx.int('block_length', 1, 99999)
+    # the settings go through the constructor, as a deployment would pass them (0 is a legal limit: accept no body at all)
+    w = WsgiApplication(APP, max_content_length=maxlen, block_length=blocklen)
+    if not (sx.eq(w.max_content_length, maxlen) is True or sx.symbolic):
+        return False
     rest = sx.int('rest', 0, 999999)
     stream = Stream(sx, k, rest)
     env = {'wsgi.input': stream}
@@ -82,7 +84,7 @@ def body_reader(sx, p):
         refused = True
     sx.observe('refused', refused)
     sx.observe('reads', len(stream.requests))
-    ok = [total <= maxlen]
+    ok = [total <= maxlen, sx.eq(w.max_content_length, maxlen), sx.eq(w.block_length, blocklen)]
     acc = 0
     for n, r in zip(stream.requests, stream.returned):
         ok.append(n >= 0)                      # a negative size would read the whole stream
